@@ -202,6 +202,8 @@ MDP_LINES = [
     "nsteps = 10\n", "nsteps=10\n", "  nsteps   =   10 ; steps\n", "nstepsx = 7\n", "nst = 1\n",
     "; nsteps = 3\n", "; comment\n", "\n", "dt = 0.002\n", "define = -DA=1 -DB=2\n", "ref-t = 300 300\n",
     "title\n", "= 5\n", "gen_vel = yes ; c = d\n",
+    # white space of other kinds around the keyword (str.strip() removes all of str.isspace), and inside it (kept)
+    "nsteps\xa0= 11\n", "\u2003dt\u3000=\xa00.004\n", "\x0cnst\x1f=\t2\n", "gen\xa0vel = maybe\n", "tc-grps\x85= a b\n",
 ]
 MDP_KEYS = ["nsteps", "nst", "dt", "gen_vel", "tc-grps", "", "ref-t", "ref_t", "gen-vel"]
 MDP_VALS = [10, 0, "no", 0.002, "a b", "x = y", "", " 5 ", -1, 0.0, False, "0", -0.0]
